@@ -10,6 +10,7 @@ import SalsaVerif.Drive.CoreAcc
 import SalsaVerif.Drive.CoreSpec
 import SalsaVerif.Drive.Cancel
 import SalsaVerif.Drive.Alloc
+import SalsaVerif.Drive.Persist
 
 /-! `svdriver <model>` — reads an op file on stdin, prints one line per op. -/
 def main (args : List String) : IO UInt32 := do
@@ -26,6 +27,7 @@ def main (args : List String) : IO UInt32 := do
   | ["corespec"] => SalsaVerif.Drive.CoreSpec.main; return 0
   | ["cancel"] => SalsaVerif.Drive.Cancel.main; return 0
   | ["alloc"] => SalsaVerif.Drive.Alloc.main; return 0
+  | ["persist"] => SalsaVerif.Drive.Persist.main; return 0
   | _ =>
     IO.eprintln "usage: svdriver <model>  (models: edges, cycle, dg, lru, rq, intern, core, cancel, alloc)"
     return 2
